@@ -199,7 +199,7 @@ def anno_resolve_case(rng):
     atom_expect = {}
     text = '[$]'
     idx = 0
-    for j, el in enumerate(['C', 'O', 'C']):
+    for j, el in enumerate(rng.choice([['C', 'O', 'C'], ['C', 'O', 'C'], ['O'], ['N']])):     # also one-atom fragments
         w = rng.choice([None, '0.5', '2', '0'])
         x = rng.choice([None, None, 'R', 'S']) if el == 'C' else None
         free = rng.choice([None, ('tag', 't%d' % j)])
